@@ -57,6 +57,17 @@ def mc_explore(sc, tcases, maxlen, liveness=False, timeout=1800, tag="mc"):
     return [l for l in r.lines if l.get("mc") == "bad"], lasso, r
 
 
+def ebnf_lemma(rep, sc):
+    """CFG!DocDesugar (the documented rewriting) agrees with the direct reading of the sugar (spec/EBNF.tla)"""
+    sd = spec_dir(sc, "spec-ebnf")
+    r = tlc(sc, "EBNF", cfg="EBNF.cfg", cwd=sd, timeout=2400)
+    tlc_must(r, "EBNF")
+    if "EBNF-LEMMA-FAILS" in r.out or r.violation or r.distinct != 192:
+        raise Infra("the EBNF lemma does not hold -- the oracle's desugaring is wrong: " + r.out[-1500:])
+    rep.coverage["ebnf_lemma"] = {"configurations": 96, "strings_each": 364, "states": r.distinct}
+    return r
+
+
 def lang_jobs(acc, cap, fullcap, with_error=False, budget=60, extra=None):
     jobs = []
     for c in acc:
@@ -229,6 +240,8 @@ def c01(tier):
     }
     rep.assumptions = ["TLC/SANY, CommunityModules Json", "Go toolchain", "text renderer and table scraper (lib/pcase.py)",
                        "inputs: every string up to the per-grammar length bound + random derivations/mutations up to 40 tokens"]
+    if not quick:
+        ebnf_lemma(rep, sc)
     return rep.finish("model_checking")
 
 
